@@ -1,4 +1,4 @@
-from typing import Union
+from typing import Optional, Union
 
 from tealer.utils.comparable_enum import ComparableEnum
 
@@ -93,15 +93,26 @@ TYPEENUM_TRANSACTION_TYPES = (
 )
 
 
-def oncompletion_to_tealer_type(value: Union[str, int]) -> "TealerTransactionType":
-    ENUM_NAMES_TO_INT = {
-        "NoOp": 0,
-        "OptIn": 1,
-        "CloseOut": 2,
-        "ClearState": 3,
-        "UpdateApplication": 4,
-        "DeleteApplication": 5,
-    }
+# Named integer constants of the assembler. `int pay` is `int 1` whatever field it is compared with.
+NAMED_INT_CONSTANTS = {
+    "NoOp": 0,
+    "OptIn": 1,
+    "CloseOut": 2,
+    "ClearState": 3,
+    "UpdateApplication": 4,
+    "DeleteApplication": 5,
+    "unknown": 0,
+    "pay": 1,
+    "keyreg": 2,
+    "acfg": 3,
+    "axfer": 4,
+    "afrz": 5,
+    "appl": 6,
+}
+
+
+def oncompletion_to_tealer_type(value: Union[str, int]) -> Optional["TealerTransactionType"]:
+    """Return the transaction type for the OnCompletion value, None if it is not a OnCompletion value."""
     INT_TO_TYPE = {
         0: TealerTransactionType.ApplNoOp,
         1: TealerTransactionType.ApplOptIn,
@@ -112,20 +123,15 @@ def oncompletion_to_tealer_type(value: Union[str, int]) -> "TealerTransactionTyp
     }
 
     if not isinstance(value, int):
-        value = ENUM_NAMES_TO_INT[value]
+        if value not in NAMED_INT_CONSTANTS:
+            return None
+        value = NAMED_INT_CONSTANTS[value]
 
-    return INT_TO_TYPE[value]
+    return INT_TO_TYPE.get(value, None)
 
 
-def transaction_type_to_tealer_type(value: Union[str, int]) -> "TealerTransactionType":
-    ENUM_NAMES_TO_INT = {
-        "pay": 1,
-        "keyreg": 2,
-        "acfg": 3,
-        "axfer": 4,
-        "afrz": 5,
-        "appl": 6,
-    }
+def transaction_type_to_tealer_type(value: Union[str, int]) -> Optional["TealerTransactionType"]:
+    """Return the transaction type for the TypeEnum value, None if it is not a TypeEnum value."""
     INT_TO_TYPE = {
         1: TealerTransactionType.Pay,
         2: TealerTransactionType.KeyReg,
@@ -136,9 +142,11 @@ def transaction_type_to_tealer_type(value: Union[str, int]) -> "TealerTransactio
     }
 
     if not isinstance(value, int):
-        value = ENUM_NAMES_TO_INT[value]
+        if value not in NAMED_INT_CONSTANTS:
+            return None
+        value = NAMED_INT_CONSTANTS[value]
 
-    return INT_TO_TYPE[value]
+    return INT_TO_TYPE.get(value, None)
 
 
 class ExecutionMode(ComparableEnum):
